@@ -154,7 +154,94 @@ def rule_self_nesting(ctx):
     run_self_nesting(ctx, "C11.f", c11_wiring.cases(), NESTING_MATTERS)
 
 
+def rule_array_size_domain(ctx):
+    """C11.g: ARRAY_SIZE over the abstract document kinds {empty array, array of n > 0, object}: Snowflake gives 0, n, NULL.
+    The stage's product is evaluated with DuckDB's facts json_array_length = 0 / n / 0 and json_type = ARRAY / ARRAY / OBJECT
+    (a CASE without ELSE yields NULL; an integer is true iff non-zero)."""
+    from ..execmodel import ExecHooks, node
+    from ..interp import explore
+    from ..values import Const,  Lst, NodeV
+    from .wiring import S
+
+    prog = ctx.prog
+    if not prog.has_fn("transforms", "array_size"):
+        return
+    fn = prog.fn("transforms", "array_size")
+    loc = prog.mod("transforms").loc(fn)
+    holder = []
+
+    def run(I):
+        x = S("x")
+        holder.append(x)
+        return I.call(I.global_lookup("transforms", "array_size"), [node("ArraySize", "stmt", this=x)], {}, None)
+
+    paths = explore(prog, lambda: ExecHooks(None), run, max_paths=8)
+    if not paths or paths[0].outcome != "return":
+        return
+    prod, x = paths[0].value, holder[0]
+    KINDS = {"an empty array": (0, "ARRAY", 0), "an array of n elements": ("n", "ARRAY", "n"), "an object": (0, "OBJECT", None)}
+    UNKNOWN = object()
+
+    def ev(v, jal, jtype):
+        if isinstance(v, NodeV):
+            a = v.args
+            if v.cls == "Anonymous" and isinstance(a.get("this"), Const):
+                f = str(a["this"].v).lower()
+                args = a.get("expressions").items if isinstance(a.get("expressions"), Lst) else []
+                on_x = len(args) == 1 and (args[0] is x or getattr(args[0], "copy_of", None) is x)
+                if on_x and f == "json_array_length":
+                    return jal
+                if on_x and f == "json_type":
+                    return jtype
+                return UNKNOWN
+            if v.cls == "Literal":
+                t = a.get("this")
+                return (t.v if not (isinstance(a.get("is_string"), Const) and a["is_string"].v is False) else int(t.v)) if isinstance(t, Const) else UNKNOWN
+            if v.cls == "Paren":
+                return ev(a.get("this"), jal, jtype)
+            if v.cls in ("EQ", "NEQ", "GT", "GTE"):
+                l, r = ev(a.get("this"), jal, jtype), ev(a.get("expression"), jal, jtype)
+                if UNKNOWN in (l, r) or "n" in (l, r) and v.cls in ("EQ", "NEQ") and not (l == r):
+                    if "n" in (l, r) and v.cls in ("GT", "GTE") and 0 in (l, r):
+                        return (l == "n") if v.cls == "GT" else True if l == "n" else False
+                    if UNKNOWN in (l, r):
+                        return UNKNOWN
+                if v.cls == "EQ":
+                    return l == r
+                if v.cls == "NEQ":
+                    return l != r
+                if v.cls in ("GT", "GTE") and isinstance(l, int) and isinstance(r, int):
+                    return l > r if v.cls == "GT" else l >= r
+                return UNKNOWN
+            if v.cls == "Case":
+                for br in (a.get("ifs").items if isinstance(a.get("ifs"), Lst) else []):
+                    c = ev(br.args.get("this"), jal, jtype)
+                    if c is UNKNOWN:
+                        return UNKNOWN
+                    if c is True or c == "n" or (isinstance(c, int) and not isinstance(c, bool) and c != 0):
+                        return ev(br.args.get("true"), jal, jtype)
+                d = a.get("default")
+                return ev(d, jal, jtype) if isinstance(d, NodeV) else None
+        return UNKNOWN
+
+    n = 0
+    for kind, (jal, jtype, want) in KINDS.items():
+        got = ev(prod, jal, jtype)
+        n += 1
+        if got is UNKNOWN:
+            ctx.ob("C11.g", f"ARRAY_SIZE of {kind}", None, loc, "product not evaluable with the listed facts")
+            continue
+        ok = got == want
+        ctx.ob("C11.g", f"ARRAY_SIZE of {kind} is {want if want is not None else 'NULL'}", ok, loc, "" if ok else f"gives {got if got is not None else 'NULL'}")
+        if not ok:
+            ctx.violation("C11.g", "transforms", "array_size", f"ARRAY_SIZE of {kind} gives {got if got is not None else 'NULL'}", loc,
+                          f"the ARRAY_SIZE rewrite gives {got if got is not None else 'NULL'} for {kind}; Snowflake gives {want if want is not None else 'NULL'} "
+                          f"(the CASE that maps DuckDB's 0-for-non-arrays to NULL also swallows the 0 of an empty array)")
+    ctx.floor("C11.g document kinds evaluated", n, 3)
+
+
 RULES = [
+    ("C11.g", rule_array_size_domain, ("quick", "thorough")),
     ("C11.f", rule_self_nesting, ("quick", "thorough")),
     ("C11.e", rule_closure, ("quick", "thorough")),
     ("C11.d", rule_wiring, ("quick", "thorough")),
